@@ -1,8 +1,387 @@
 import Req.Driver.Proto
-/-! Driver lanes of C05. -/
+import Req.H2.Frame
+import Req.H2.Meta
+import Req.H3.Varint
+import Req.H3.Frame
+import Req.H3.Fields
+/-! Driver lanes of C05 (HTTP/2 framer, QUIC varints, HTTP/3 frames/SETTINGS/field sections). -/
 namespace Req.Driver.L.C05
 open Req.Proto
 
-def lanes : List (String × (List String → String)) := []
+def bool? (s : String) : Option Bool :=
+  if s == "1" then some true else if s == "0" then some false else none
+
+def b01 (b : Bool) : String := if b then "1" else "0"
+
+def sp (l : List String) : String := " ".intercalate l
+
+/-! ### varints -/
+section varint
+open Req.H3.Varint
+
+def showParse (b : Bytes) : Except PErr (Nat × Bytes) → String
+  | .ok (v, rest) => s!"ok {v} {b.length - rest.length}"
+  | .error .eof => "eof"
+  | .error .unexpectedEOF => "ueof"
+
+def laneVAppend : List String → String
+  | [n] => match n.toNat? with
+    | some n => match append n with
+      | some bs => encodeHex bs
+      | none => "panic"
+    | none => "bad-op"
+  | _ => "bad-op"
+
+def laneVLen : List String → String
+  | [n] => match n.toNat? with
+    | some n => match len n with
+      | some l => toString l
+      | none => "panic"
+    | none => "bad-op"
+  | _ => "bad-op"
+
+def laneVAppendLen : List String → String
+  | [n, l] => match n.toNat?, l.toNat? with
+    | some n, some l => match appendWithLen n l with
+      | some bs => encodeHex bs
+      | none => "panic"
+    | _, _ => "bad-op"
+  | _ => "bad-op"
+
+def laneVParse : List String → String
+  | [h] => match decodeHex h with
+    | some b => showParse b (parse b)
+    | none => "bad-op"
+  | _ => "bad-op"
+
+def laneVRead : List String → String
+  | [h] => match decodeHex h with
+    | some b => showParse b (read b)
+    | none => "bad-op"
+  | _ => "bad-op"
+end varint
+
+/-! ### HTTP/2 frames -/
+section h2
+open Req.H2.Frame
+
+def showHdr (tag : String) (h : FrameHeader) : String :=
+  s!"{tag} {h.flags} {h.streamID} {h.length}"
+
+def showPrio (p : Priority) : String := s!"{p.streamDep} {b01 p.exclusive} {p.weight}"
+
+def showSettings (ss : List (Nat × Nat)) : String :=
+  if ss.isEmpty then "-" else ",".intercalate (ss.map fun s => s!"{s.1}:{s.2}")
+
+def showFrame : Frame → String
+  | .data h d => sp [showHdr "D" h, encodeHex d]
+  | .headers h p f => sp [showHdr "H" h, showPrio p, encodeHex f]
+  | .priority h p => sp [showHdr "P" h, showPrio p]
+  | .rstStream h c => sp [showHdr "R" h, toString c]
+  | .settings h ss => sp [showHdr "S" h, showSettings ss, b01 (hasDuplicates ss)]
+  | .pushPromise h pid f => sp [showHdr "PP" h, toString pid, encodeHex f]
+  | .ping h d => sp [showHdr "PI" h, encodeHex d]
+  | .goAway h l c d => sp [showHdr "G" h, toString l, toString c, encodeHex d]
+  | .windowUpdate h i => sp [showHdr "W" h, toString i]
+  | .continuation h f => sp [showHdr "C" h, encodeHex f]
+  | .unknown h p => sp [showHdr s!"U{h.type}" h, encodeHex p]
+
+def showRErr : RErr → String
+  | .conn c => s!"conn:{c}"
+  | .stream s c => s!"stream:{s}:{c}"
+  | .unexpectedEOF => "ueof"
+  | .eof => "eof"
+  | .tooLarge => "toolarge"
+
+def showRes : Except RErr Frame → String
+  | .ok f => showFrame f
+  | .error e => showRErr e
+
+/-- `c05h2read <maxReadSize> <allowIllegalReads> <bytes>` -/
+def laneH2Read : List String → String
+  | [m, a, h] => match m.toNat?, bool? a, decodeHex h with
+    | some m, some a, some b =>
+      let r : Reader := { maxReadSize := setMaxReadFrameSize m, allowIllegalReads := a }
+      ";".intercalate ((readAll (b.length / 9 + 2) r b).map showRes)
+    | _, _, _ => "bad-op"
+  | _ => "bad-op"
+
+def showW : Except WErr Bytes → String
+  | .ok b => encodeHex b
+  | .error .streamID => "err:streamid"
+  | .error .depStreamID => "err:depstreamid"
+  | .error .padLength => "err:padlength"
+  | .error .padBytes => "err:padbytes"
+  | .error .frameTooLarge => "err:toolarge"
+  | .error .windowIncr => "err:windowincr"
+
+def laneWData : List String → String
+  | [a, sid, e, d, pad] => match bool? a, sid.toNat?, bool? e, decodeHex d with
+    | some a, some sid, some e, some d =>
+      if pad == "nil" then showW (writeData a sid e d none)
+      else match decodeHex pad with
+        | some p => showW (writeData a sid e d (some p))
+        | none => "bad-op"
+    | _, _, _, _ => "bad-op"
+  | _ => "bad-op"
+
+def laneWHeaders : List String → String
+  | [a, sid, es, eh, pl, dep, ex, w, frag] =>
+    match bool? a, sid.toNat?, bool? es, bool? eh, pl.toNat?, dep.toNat?, bool? ex, w.toNat?,
+        decodeHex frag with
+    | some a, some sid, some es, some eh, some pl, some dep, some ex, some w, some frag =>
+      showW (writeHeaders a (HeadersParam.mk sid frag es eh pl ⟨dep, ex, w⟩))
+    | _, _, _, _, _, _, _, _, _ => "bad-op"
+  | _ => "bad-op"
+
+def laneWPriority : List String → String
+  | [a, sid, dep, ex, w] => match bool? a, sid.toNat?, dep.toNat?, bool? ex, w.toNat? with
+    | some a, some sid, some dep, some ex, some w => showW (writePriority a sid ⟨dep, ex, w⟩)
+    | _, _, _, _, _ => "bad-op"
+  | _ => "bad-op"
+
+def laneWRst : List String → String
+  | [a, sid, c] => match bool? a, sid.toNat?, c.toNat? with
+    | some a, some sid, some c => showW (writeRSTStream a sid c)
+    | _, _, _ => "bad-op"
+  | _ => "bad-op"
+
+def parsePairs (s : String) : Option (List (Nat × Nat)) :=
+  if s == "-" then some [] else
+  (s.splitOn ",").mapM fun p => match p.splitOn ":" with
+    | [a, b] => do let a ← a.toNat?; let b ← b.toNat?; pure (a, b)
+    | _ => none
+
+def laneWSettings : List String → String
+  | [ss] => match parsePairs ss with
+    | some ss => showW (writeSettings ss)
+    | none => "bad-op"
+  | _ => "bad-op"
+
+def laneWSettingsAck : List String → String
+  | [] => showW writeSettingsAck
+  | _ => "bad-op"
+
+def laneWPing : List String → String
+  | [a, d] => match bool? a, decodeHex d with
+    | some a, some d => showW (writePing a d)
+    | _, _ => "bad-op"
+  | _ => "bad-op"
+
+def laneWGoAway : List String → String
+  | [m, c, d] => match m.toNat?, c.toNat?, decodeHex d with
+    | some m, some c, some d => showW (writeGoAway m c d)
+    | _, _, _ => "bad-op"
+  | _ => "bad-op"
+
+def laneWWindowUpdate : List String → String
+  | [a, sid, i] => match bool? a, sid.toNat?, i.toNat? with
+    | some a, some sid, some i => showW (writeWindowUpdate a sid i)
+    | _, _, _ => "bad-op"
+  | _ => "bad-op"
+
+def laneWContinuation : List String → String
+  | [a, sid, eh, f] => match bool? a, sid.toNat?, bool? eh, decodeHex f with
+    | some a, some sid, some eh, some f => showW (writeContinuation a sid eh f)
+    | _, _, _, _ => "bad-op"
+  | _ => "bad-op"
+
+def laneWPushPromise : List String → String
+  | [a, sid, pid, eh, pl, f] =>
+    match bool? a, sid.toNat?, pid.toNat?, bool? eh, pl.toNat?, decodeHex f with
+    | some a, some sid, some pid, some eh, some pl, some f =>
+      showW (writePushPromise a (PushPromiseParam.mk sid pid f eh pl))
+    | _, _, _, _, _, _ => "bad-op"
+  | _ => "bad-op"
+
+def laneWRaw : List String → String
+  | [t, fl, sid, p] => match t.toNat?, fl.toNat?, sid.toNat?, decodeHex p with
+    | some t, some fl, some sid, some p => showW (writeRawFrame t fl sid p)
+    | _, _, _, _ => "bad-op"
+  | _ => "bad-op"
+end h2
+
+/-! ### HTTP/2 MetaHeaders (readMetaFrame over an abstract HPACK decoder) -/
+section h2meta
+open Req.H2.Meta
+
+/-- an event: `f:<namehex>:<valuehex>` (field emitted), `e` (decoder error) -/
+def parseEvent (s : String) : Option Event :=
+  match s.splitOn ":" with
+  | ["e"] => some .decodeError
+  | ["f", n, v] => do
+    let n ← decodeHex n
+    let v ← decodeHex v
+    pure (.field n v)
+  | _ => none
+
+/-- a fragment: `<len>/<ev>+<ev>…` (`<len>/` = no events) -/
+def parseFrag (s : String) : Option Frag :=
+  match s.splitOn "/" with
+  | [l, evs] => do
+    let l ← l.toNat?
+    let evs ← if evs == "" then some [] else (evs.splitOn "+").mapM parseEvent
+    pure { len := l, events := evs }
+  | _ => none
+
+def showFields (fs : List (Bytes × Bytes)) : String :=
+  if fs.isEmpty then "-" else
+  ",".intercalate (fs.map fun f => encodeHex f.1 ++ "=" ++ encodeHex f.2)
+
+def showMeta : Outcome → String
+  | .ok fs tr => s!"ok {showFields fs} {b01 tr}"
+  | .conn c => s!"conn:{c}"
+  | .stream c => s!"stream:{c}"
+
+/-- `c05h2meta <maxHeaderListSize> <closeErr 0/1> <frag>;<frag>…` -/
+def laneH2Meta : List String → String
+  | [m, ce, frags] => match m.toNat?, bool? ce, (frags.splitOn ";").mapM parseFrag with
+    | some m, some ce, some fr => showMeta (readMeta m fr ce)
+    | _, _, _ => "bad-op"
+  | _ => "bad-op"
+end h2meta
+
+/-! ### HTTP/3 frames -/
+section h3
+open Req.H3.Frame
+
+def showOther (l : List (Nat × Nat)) : String :=
+  if l.isEmpty then "-" else ",".intercalate (l.map fun s => s!"{s.1}:{s.2}")
+
+def insSorted (p : Nat × Nat) : List (Nat × Nat) → List (Nat × Nat)
+  | [] => [p]
+  | q :: qs => if p.1 ≤ q.1 then p :: q :: qs else q :: insSorted p qs
+
+def sortPairs (l : List (Nat × Nat)) : List (Nat × Nat) := l.foldr insSorted []
+
+def showH3Err : Err → String
+  | .eof => "err:eof"
+  | .reserved t => s!"err:reserved:{t}"
+  | .settingsTooLarge => "err:settings-size"
+  | .duplicateSetting _ => "err:dup"
+  | .invalidValue _ => "err:value"
+
+def showH3 (input : Bytes) : Except Err Frame × Bytes → String
+  | (.ok (.data l), rest) => s!"data {l} {input.length - rest.length}"
+  | (.ok (.headers l), rest) => s!"headers {l} {input.length - rest.length}"
+  | (.ok (.settings s), rest) =>
+    s!"settings {b01 s.datagram} {b01 s.extendedConnect} {showOther (sortPairs s.other)} {input.length - rest.length}"
+  | (.error e, _) => showH3Err e
+
+/-- `c05h3next <bytes>` -/
+def laneH3Next : List String → String
+  | [h] => match decodeHex h with
+    | some b => showH3 b (parseNext (b.length + 1) b)
+    | none => "bad-op"
+  | _ => "bad-op"
+
+/-- `c05h3settings <l> <bytes>` : `parseSettingsFrame(r, l)` -/
+def laneH3Settings : List String → String
+  | [l, h] => match l.toNat?, decodeHex h with
+    | some l, some b => showH3 b (parseSettingsFrame l b)
+    | _, _ => "bad-op"
+  | _ => "bad-op"
+
+def showOpt : Option Bytes → String
+  | some b => encodeHex b
+  | none => "panic"
+
+/-- `c05h3append data|headers <l>` / `c05h3append settings <dg> <ec> <pairs in iteration order>` -/
+def laneH3Append : List String → String
+  | ["data", l] => match l.toNat? with
+    | some l => showOpt (appendData l)
+    | none => "bad-op"
+  | ["headers", l] => match l.toNat? with
+    | some l => showOpt (appendHeaders l)
+    | none => "bad-op"
+  | ["settings", dg, ec, ps] => match bool? dg, bool? ec, Req.Driver.L.C05.parsePairs ps with
+    | some dg, some ec, some ps =>
+      showOpt (appendSettings { datagram := dg, extendedConnect := ec, other := ps })
+    | _, _, _ => "bad-op"
+  | _ => "bad-op"
+end h3
+
+/-! ### HTTP/3 field sections -/
+section h3fields
+open Req.H3.Fields
+
+def bytesLe : Bytes → Bytes → Bool
+  | [], _ => true
+  | _ :: _, [] => false
+  | a :: as, b :: bs => if a < b then true else if b < a then false else bytesLe as bs
+
+def insKey (p : Bytes × List Bytes) : HeaderMap → HeaderMap
+  | [] => [p]
+  | q :: qs => if bytesLe p.1 q.1 then p :: q :: qs else q :: insKey p qs
+
+def sortMap (m : HeaderMap) : HeaderMap := m.foldr insKey []
+
+def insB (p : Bytes) : List Bytes → List Bytes
+  | [] => [p]
+  | q :: qs => if bytesLe p q then p :: q :: qs else q :: insB p qs
+
+def showMap (m : HeaderMap) : String :=
+  if m.isEmpty then "-" else
+  ";".intercalate ((sortMap m).map fun e => encodeHex e.1 ++ "=" ++ encodeList e.2)
+
+def mkFields (names values : List Bytes) : Option (List Field) :=
+  if names.length == values.length then some ((names.zip values).map fun p => ⟨p.1, p.2⟩)
+  else none
+
+def showTrailerKeys : Option (List Bytes) → String
+  | none => "none"
+  | some ks => encodeList (ks.foldr insB [])
+
+/-- `c05h3fields resp|req|trailers <names> <values>` -/
+def laneH3Fields : List String → String
+  | [kind, ns, vs] => match decodeList ns, decodeList vs with
+    | some ns, some vs => match mkFields ns vs with
+      | none => "bad-op"
+      | some fs =>
+        if kind == "resp" then
+          match updateResponseFromHeaders fs with
+          | .error _ => "err"
+          | .ok r => sp ["ok", toString r.statusCode, encodeHex r.status, toString r.contentLength,
+                         showMap r.header, showTrailerKeys r.trailerKeys]
+        else if kind == "req" then
+          match parseHeaders fs true with
+          | .error _ => "err"
+          | .ok h => sp ["ok", encodeHex h.path, encodeHex h.method, encodeHex h.authority,
+                         encodeHex h.scheme, encodeHex h.protocol, toString h.contentLength,
+                         showMap h.headers]
+        else if kind == "trailers" then
+          match parseTrailers fs with
+          | .error _ => "err"
+          | .ok m => sp ["ok", showMap m]
+        else "bad-op"
+    | _, _ => "bad-op"
+  | _ => "bad-op"
+end h3fields
+
+def lanes : List (String × (List String → String)) := [
+  ("c05vappend", laneVAppend),
+  ("c05vlen", laneVLen),
+  ("c05vappendlen", laneVAppendLen),
+  ("c05vparse", laneVParse),
+  ("c05vread", laneVRead),
+  ("c05h2read", laneH2Read),
+  ("c05wdata", laneWData),
+  ("c05wheaders", laneWHeaders),
+  ("c05wpriority", laneWPriority),
+  ("c05wrst", laneWRst),
+  ("c05wsettings", laneWSettings),
+  ("c05wsettingsack", laneWSettingsAck),
+  ("c05wping", laneWPing),
+  ("c05wgoaway", laneWGoAway),
+  ("c05wwu", laneWWindowUpdate),
+  ("c05wcont", laneWContinuation),
+  ("c05wpp", laneWPushPromise),
+  ("c05wraw", laneWRaw),
+  ("c05h2meta", laneH2Meta),
+  ("c05h3next", laneH3Next),
+  ("c05h3settings", laneH3Settings),
+  ("c05h3append", laneH3Append),
+  ("c05h3fields", laneH3Fields)
+]
 
 end Req.Driver.L.C05
